@@ -327,7 +327,11 @@ def batch(task):
     seed, lo, hi = task["seed"], task["lo"], task["hi"]
     agg = new_agg()
     for run in range(lo, hi):
-        res, program = one_run(seed, run, force_config=task.get("config"), overrides=task.get("overrides"))
+        try:
+            res, program = runner.guarded(one_run, 120, seed, run, force_config=task.get("config"), overrides=task.get("overrides"))
+        except (runner.RunTimeout, lang.HarnessError) as e:
+            agg["harness"].append({"run": run, "why": repr(e)[:200]})
+            continue
         fold(agg, res, program)
         if len(agg["violations"]) >= task.get("max_viol", 12):
             break
@@ -390,7 +394,7 @@ def merge(aggs):
 
 # ------------------------------------------------------------------ tiers / evidence
 TIERS = {
-    "quick": {"runs": 2400, "chunk": 25, "wall_cap": 600},
+    "quick": {"runs": 10000, "chunk": 50, "wall_cap": 900},
     "thorough": {"runs": 40000, "chunk": 100, "wall_cap": 3400},
 }
 
